@@ -67,6 +67,8 @@ simple("C17", "exploration",
        "san build (ASan+UBSan+LSan): (i) (input, base) x setter histories of depth <=D over the shared menu, C handle and C++ "
        "url_aggregator in lockstep, every url function compared (direct and via ada_copy); (ii) failed-parse handles and copies; "
        "(iii) search-params/strings/iterator handles: every operation sequence of depth <=D; (iv) idna/can_parse/max-length; "
+       "(iv-b) every limit 0..48 x 6 initial URLs x every history of <=2 setter calls (27 values) on a handle parsed under the limit; "
+       "a components pointer taken after the parse (and from every handle of a copy chain) must keep reading the live offsets; "
        "function list read from include/ada_c.h; non-trivial = parse succeeded / list non-empty; distinct = distinct observation tuples",
        ["oracle: the C++ API (differential), ASan/UBSan abort, LSan leak check after every batch"],
        lambda tier: [{"name": "capi-enum", "driver": "drv_capi", "config": "san", "sources": ["harness/drv_capi.cpp"],
@@ -75,7 +77,7 @@ simple("C17", "exploration",
 META["C17"] = {
     "engine": "capi-enum (ASan/UBSan/LSan build)", "design_ref": "3/C17",
     "technique": "bounded exhaustive enumeration of operation histories on C handles executed in lockstep with the C++ objects they wrap (differential oracle), sanitizer build as memory oracle",
-    "text": "Every url function is compared with its C++ counterpart on every (input, base) x setter history of the stated depth, directly and through ada_copy; failed-parse handles must answer null/empty/false/0; every search-params / strings / iterator operation sequence up to the stated depth is run with every handle freed exactly once under ASan+LSan; the function list is read from ada_c.h so an uncovered function is reported.",
+    "text": "Every url function is compared with its C++ counterpart on every (input, base) x setter history of the stated depth, directly and through ada_copy; a components pointer taken earlier must keep reading what the C++ reference reads; the same comparison is made under every length limit 0..48 on histories of up to two setter calls; failed-parse handles must answer null/empty/false/0; every search-params / strings / iterator operation sequence up to the stated depth is run with every handle freed exactly once under ASan+LSan; the function list is read from ada_c.h so an uncovered function is reported.",
     "note": "Oracle is the C++ API (tied to the Standard by C01/C03/C12). Bounded by the menus and depth in evidence.",
 }
 
